@@ -4,7 +4,7 @@
    it is what the correspondence check establishes on every run.  The theorems
    are the structural laws the property names, for arbitrary sub-expressions,
    and the independence of the answer from the fuel. *)
-From YQ Require Import Base.Str Model.Node Model.Store Model.Eval Proofs.EvalLaws Proofs.EvalFuel Proofs.EvalTotal.
+From YQ Require Import Base.Str Model.Node Model.Store Model.Eval Proofs.EvalLaws Proofs.EvalFuel Proofs.EvalTotal Proofs.GlobProofs.
 
 (* `|` composes *)
 Theorem C01_pipe_composes : forall f l r ro vs ctx st,
@@ -77,6 +77,24 @@ Theorem C01_fuel_sufficient : forall f e ro vs ctx st,
   (depth e <= f)%nat -> eval f e ro vs ctx st <> OutOfFuel.
 Proof. exact eval_fuel_sufficient. Qed.
 Print Assumptions C01_fuel_sufficient.
+
+(* keys and == go through matchKey (Model/Bounds.v, line by line from matchKeyString.go): on a pattern without
+   * and ? that matcher IS string equality, and key traversal by pattern selects or creates exactly that key *)
+Theorem C01_glob_plain_is_equality : forall name pat,
+  is_wild pat = false -> Bounds.match_key name pat = Bounds.Ok (str_eqb name pat).
+Proof. exact match_key_plain. Qed.
+Print Assumptions C01_glob_plain_is_equality.
+
+Theorem C01_key_without_metachars_is_exact : forall ro k p es st,
+  is_wild k = false -> (length (find_key es k 0) <= 1)%nat ->
+  trav_map_pat ro k p es st = trav_map ro k p es st.
+Proof. exact trav_map_one_definition. Qed.
+Print Assumptions C01_key_without_metachars_is_exact.
+
+Example C01_example_pattern_key :
+  run (EKey [99; 42]) (Map [([99; 97; 116], Scalar TInt [49]); ([100], Scalar TInt [50]); ([99], Scalar TInt [51])])
+  = tag_ok ++ ser_node (Scalar TInt [49]) ++ [10] ++ ser_node (Scalar TInt [51]) ++ [10].
+Proof. vm_compute. reflexivity. Qed.
 
 (* non-vacuity: a multi-result product, left-major, and an error defined by the semantics *)
 Example C01_example_product :
